@@ -1,14 +1,14 @@
 # C04 — untrusted layer bytes: errors, never a crash or a hang
 PROPS["C04"] = dict(
     props_file="Properties/C04.v",
-    harnesses=[dict(cmd="hostile", mod="root", model="Model.Hostile", quick=320, thorough=40000, shard=40, coq_jobs=8,
+    harnesses=[dict(cmd="hostile", mod="root", model="Model.Hostile", quick=240, thorough=40000, shard=30, coq_jobs=8,
                     require=["kind.footer", "kind.open", "kind.tree", "kind.read", "class.ok", "class.error",
                              "footer.ok", "footer.error", "open.ok", "open.error",
-                             "tree.ok", "tree.error", "tree.walked", "tree.hardlink", "read.ok", "read.error"])],
+                             "tree.ok", "tree.error", "tree.walked", "tree.hardlink", "tree.shared-directory", "read.ok", "read.error"])],
     rule="hand-written corpus (one input per defect F1-F5,F7 and per new defect) + 4 random streams: footer byte strings of all lengths "
          "0..footer size+12 for the 4 footer variants (valid, truncated, crafted extra field lengths/claimed lengths, flag/magic flips, int64-boundary numbers); "
          "blobs (garbage/valid TOC + hostile footer, TOC offsets inside/at/beyond/negative, TOC-offset annotation) through estargz.Open with and "
-         "without the zstd:chunked and external-TOC decompressors; TOC JSON with adversarial structure (hardlink cycles/self links/links to directories, "
+         "without the zstd:chunked and external-TOC decompressors; TOC JSON with adversarial structure (hardlink cycles/self links/links to directories (accepted: cyclic and shared directory graphs), "
          "ancestors, root; children below files; duplicate/empty/dot/dotdot names; unknown types; chunk without file; negative/2^62 sizes and offsets; missing digests) "
          "wrapped in a valid blob and driven through memory.NewReader, full metadata walk, per-file chunk lookups and reads, estargz.Reader API, "
          "VerifiableReader.Cache and on-demand reads; arbitrary chunk tables (gaps, overlaps, empty/negative/huge chunks, unsorted, short files, scripted cache hits) "
@@ -20,13 +20,12 @@ PROPS["C04"] = dict(
         "names are handed to the model after cleanEntryName (path.Clean), as component lists",
     ],
     level_text="Coq theorems, for ALL inputs: the four footer parsers and estargz.Open's footer/TOC-range arithmetic never panic (any bytes, any gzip-header outcome, any TOC-offset hint); "
-               "getSource and initFields terminate on every entry list; assignIDs terminates on every child graph (cyclic or shared); fs/reader file.ReadAt never loops forever and, when "
+               "getSource and initFields terminate on every entry list; assignIDs and the prefetch directory walk (each directory id once) terminate on every child graph (cyclic or shared); fs/reader file.ReadAt never loops forever and, when "
                "chunk sizes are allocatable, never slices out of range, for every chunk lookup function. The models (repaired code, fixes C04-fix-1..10) are run against the real packages on generated hostile inputs every run, "
                "each case isolated in a child process; the model-free oracle is: outcome class in {ok, error}.",
-    level_note="db metadata store, FUSE node layer, fs/remote (C06), builder (C14), passthrough merge buffer (F21) and the prefetch walk bound (tree shape of the directory graph) are not covered by theorems; "
-               "the directory walk is exercised by the harness with a visit budget only.",
+    level_note="db metadata store, FUSE node layer, fs/remote (C06), builder (C14), passthrough merge buffer (F21) are not covered by theorems; the harness's own traversal visits each directory id once and asserts that every metadata.Reader / Cache / read call returns.",
     technique="Coq proof: partial-operation models (None = panic, fuel = unbounded recursion), totality by case analysis / induction / visited-set measure; correspondence by vm_compute on child-process observations",
     trusted=["estargz footer parsers + Open, initFields/getSource, memory assignIDs, fs/reader file.ReadAt are modelled by hand in coq/Model/{Footer,HostileTree,HostileRead}.v; "
-             "tie = outcome class + returned values (footer triple, id count + full directory listing, bytes read) per generated case",
+             "tie = outcome class + returned values (footer triple, id count + multiset of (base name, kind) over the children of every directory reached, bytes read) per generated case",
              "child-process classification (recover, exit status, stderr text, 8 s watchdog) in harness/root/cmd/hostile/main.go"],
 )
